@@ -8,6 +8,9 @@
 * `deep_snapshot`   — every public accessor of every reachable object (C06: before vs after a raising call).
 * `gen_op`          — generator of operations: mostly valid arguments + a deliberate invalid stream.
 * `run_random`      — generate + execute histories in worker processes, then diff against the model.
+* round 4: GraphView operations (`VIEW_OPS`, `Real.views`, `Gen(views=True)`, `run_view_scenarios`, `graphview_member_probe`),
+  the per-step timer (`STEP_LIMIT_S`, failures `nontermination:<call>`), `guarded` probes of the real code, and the probe
+  `rnv_is_hoisted` that selects the model variant of `replace_nodes_and_values` (proposed_fixes/D83-partial.diff).
 """
 from __future__ import annotations
 
@@ -59,6 +62,21 @@ def locked_tensor(name=None):
 _RAUW_MANY_ATOMIC = None
 
 
+def _probe_guard(fn):
+    """a probe of the real code: any exception of the real code means `the variant is not live`, never a crash"""
+    import functools
+
+    @functools.wraps(fn)
+    def wrapped():
+        try:
+            return fn()
+        except Exception:  # noqa: BLE001
+            return False
+
+    return wrapped
+
+
+@_probe_guard
 def rauw_many_is_atomic() -> bool:
     """Probe of the real `convenience.replace_all_uses_with`: does a rejected later pair leave the earlier pairs
     unapplied (proposed fix D82-exact)?  Decides which of the two model functions (`rauwMany` = the sequential loop,
@@ -74,10 +92,37 @@ def rauw_many_is_atomic() -> bool:
         g = ir.Graph([a], [o], nodes=[user])
         try:
             conv.replace_all_uses_with([a, o], [b, c], replace_graph_outputs=False)
-        except ValueError:
+        except Exception:  # noqa: BLE001 - a probe of real code never crashes the harness
             pass
         _RAUW_MANY_ATOMIC = user.inputs[0] is a and len(list(g)) == 1
     return _RAUW_MANY_ATOMIC
+
+
+_RNV_HOISTED = None
+
+
+@_probe_guard
+def rnv_is_hoisted() -> bool:
+    """Probe of the real `convenience.replace_nodes_and_values`: are the rejections that do not depend on the copying
+    steps checked before the first write (proposed_fixes/D83-partial.diff)?  Decides which model function the call is
+    compared with (`replaceNodesAndValuesExact` = the plain sequence, `replaceNodesAndValuesHoisted`)."""
+    global _RNV_HOISTED
+    if _RNV_HOISTED is None:
+        import onnx_ir.convenience as conv
+
+        ir = _ir()
+        a = ir.Value(name="a")
+        old = ir.Node("", "Id", [a], name="old")
+        old.outputs[0].name = "o"
+        g = ir.Graph([a], [], nodes=[old])
+        stray = ir.Node("", "Id", [a], name="stray")  # the insertion point is not in g: rejected by insert_after
+        new = ir.Value(name="new")
+        try:
+            conv.replace_nodes_and_values(g, stray, [old], [], [old.outputs[0]], [new])
+        except Exception:  # noqa: BLE001 - a probe of real code never crashes the harness
+            pass
+        _RNV_HOISTED = new.name == "new" and len(list(g)) == 1
+    return _RNV_HOISTED
 
 
 def tape_spelling(op: dict):
@@ -461,6 +506,8 @@ class Real:
 
             if rauw_many_is_atomic():
                 self._mop = {**op, "exact": True}
+                if rnv_is_hoisted():
+                    self._mop["hoisted"] = True
             conv.replace_nodes_and_values(
                 self.GF(op),
                 self.nodes[op["ip"]],
@@ -1692,6 +1739,76 @@ def fail_pos(op: dict, real: Real) -> str:
 
 # --------------------------------------------------------------------------- history runner
 
+
+class Nonterm(BaseException):
+    """raised by the interval timer inside real code that does not return (BaseException: no `except Exception` of
+    the harness or of the library swallows it)"""
+
+
+STEP_LIMIT_S = 20  # per call of a history incl. its oracles (normal: milliseconds)
+NONTERM_MAX = 3  # after that many timeouts in this run (all processes) no further history is started
+
+
+def _nonterm_flag() -> str:
+    """a file shared by the check and its forked workers: one line per timeout (the environment is inherited)"""
+    import os
+
+    return os.environ.setdefault("IRVERIF_NONTERM_FLAG", f"/tmp/irverif-nonterm-{os.getpid()}")
+
+
+def reset_nonterm() -> None:
+    import atexit
+    import os
+
+    path = _nonterm_flag()
+
+    def rm():
+        try:
+            os.remove(path)
+        except OSError:
+            pass
+
+    rm()
+    atexit.register(rm)
+
+
+def _nonterm_count() -> int:
+    try:
+        with open(_nonterm_flag()) as f:
+            return sum(1 for _ in f)
+    except OSError:
+        return 0
+
+
+def _on_alarm(signum, frame):
+    raise Nonterm()
+
+
+def _arm(seconds: float) -> None:
+    """(re)start / stop (0) the per-step timer of this process (main thread of the check or of a pmap worker)"""
+    import signal
+    import threading
+
+    if threading.current_thread() is not threading.main_thread():
+        return
+    if seconds:
+        signal.signal(signal.SIGALRM, _on_alarm)
+    signal.setitimer(signal.ITIMER_REAL, seconds)
+
+
+def guarded(fn, seconds: float = 120):
+    """run a probe of the real code under the timer: (result, None) or (None, what went wrong)"""
+    try:
+        _arm(seconds)
+        return fn(), None
+    except Nonterm:
+        return None, f"did not return within {seconds}s"
+    except Exception as e:  # noqa: BLE001
+        return None, f"{type(e).__name__}: {str(e)[:160]}"
+    finally:
+        _arm(0)
+
+
 EMPTY = {"values": [], "nodes": [], "graphs": [], "tensors": []}
 # composite calls for which the model (like the code) keeps the effects of the sub-calls before a rejected one
 NOT_ATOMIC = ("rauwMany", "replaceNodesAndValues", "tapeInitializer", "builderNode")
@@ -1823,110 +1940,131 @@ def run_one(
     ops, mops, outcomes, deltas, views = [], [], [], [], []
     prev = EMPTY
     n = len(fixed_ops) if fixed_ops is not None else length
-    for step in range(n):
-        op = fixed_ops[step] if fixed_ops is not None else gen.op()
-        if op["op"] == "sort" and not nesting_acyclic(real, real.graphs[op["g"]]):
-            # a graph nested in itself: the library's recursive traversal does not terminate (outside the alphabet)
-            part.count("skipped=sort-on-cyclic-nest")
-            op = {"op": "newValue", "name": None}
-        elif op["op"] == "sort" and nest_size(real, real.graphs[op["g"]]) > MAX_NEST:
-            # graphs shared along many paths: the traversal lists a node once per path (exponential in the depth)
-            part.count("skipped=sort-on-huge-shared-nest")
-            op = {"op": "newValue", "name": None}
-        if op["op"] in VIEW_OPS and op["op"] != "newView" and not (
-                op["view"] < len(real.views) and real.views[op["view"]] is not None):
-            part.count("skipped=view-op-without-view")  # fixed histories: there is no object to call it on
-            op = {"op": "newValue", "name": None}
-        shape = shape_of(op, real)
-        label = op["op"] + ("." + op["kind"] + "." + op["m"] if op["op"] == "io" else "." + op["m"] if op["op"] == "init" else "")
-        before = deep_snapshot(real)
-        counts0 = (len(real.vals), len(real.nodes), len(real.graphs))
-        pos = fail_pos(op, real)
-        apis = api_of(op, real)
-        o, kind, mop = real.apply(op)
-        for a in apis:
-            part.count(f"api={a}")
-        for tag in spelling_tags(op):
-            part.count(f"spelling={tag}")
-        if fixed_ops is None:
-            gen.after(op, o)
-        if step < prelude:
-            part.count(f"prelude={label}:{o}")
-        else:
-            part.count(f"op={label}:{o}")
-            if op.get("via"):
-                part.count(f"via={op['via']}:{op['op']}")
-            if op.get("single"):
-                part.count(f"single-object-spelling:{op['op']}")
-            if o == "raised" and pos:
-                part.count(f"raisedAt={label}:k={pos}")
-        # signature of a failure of this call: operation, argument shape, and for composite calls where it stopped
-        sig = f"{op['op']}:{shape}"
-        if op["op"] == "rauwMany":
-            sig += f":k={pos}"
-        elif op["op"] == "replaceNodesAndValues" and o == "raised":
-            sig += f":at-{real.where or 'start'}"
-        failed = False
-        if op["op"] in VIEW_OPS:
-            # the frame (C01_view_frame) on the real objects: creating (also a rejected creation), editing or dropping a
-            # GraphView changes no public accessor of any value / node / graph, no counter, no name-authority state
-            after_view = deep_snapshot(real)
-            if after_view != before:
-                for prop_ in ("C01", "C06"):
+    cur_op = None
+    if _nonterm_count() >= NONTERM_MAX:
+        part.count("skipped=history-after-nontermination")  # the run already has its failing inputs; do not wait again
+        n = 0
+    try:
+        for step in range(n):
+            _arm(STEP_LIMIT_S)
+            cur_op = None
+            op = fixed_ops[step] if fixed_ops is not None else gen.op()
+            if op["op"] == "sort" and not nesting_acyclic(real, real.graphs[op["g"]]):
+                # a graph nested in itself: the library's recursive traversal does not terminate (outside the alphabet)
+                part.count("skipped=sort-on-cyclic-nest")
+                op = {"op": "newValue", "name": None}
+            elif op["op"] == "sort" and nest_size(real, real.graphs[op["g"]]) > MAX_NEST:
+                # graphs shared along many paths: the traversal lists a node once per path (exponential in the depth)
+                part.count("skipped=sort-on-huge-shared-nest")
+                op = {"op": "newValue", "name": None}
+            if op["op"] in VIEW_OPS and op["op"] != "newView" and not (
+                    op["view"] < len(real.views) and real.views[op["view"]] is not None):
+                part.count("skipped=view-op-without-view")  # fixed histories: there is no object to call it on
+                op = {"op": "newValue", "name": None}
+            cur_op = op
+            shape = shape_of(op, real)
+            label = op["op"] + ("." + op["kind"] + "." + op["m"] if op["op"] == "io" else "." + op["m"] if op["op"] == "init" else "")
+            before = deep_snapshot(real)
+            counts0 = (len(real.vals), len(real.nodes), len(real.graphs))
+            pos = fail_pos(op, real)
+            apis = api_of(op, real)
+            o, kind, mop = real.apply(op)
+            for a in apis:
+                part.count(f"api={a}")
+            for tag in spelling_tags(op):
+                part.count(f"spelling={tag}")
+            if fixed_ops is None:
+                gen.after(op, o)
+            if step < prelude:
+                part.count(f"prelude={label}:{o}")
+            else:
+                part.count(f"op={label}:{o}")
+                if op.get("via"):
+                    part.count(f"via={op['via']}:{op['op']}")
+                if op.get("single"):
+                    part.count(f"single-object-spelling:{op['op']}")
+                if o == "raised" and pos:
+                    part.count(f"raisedAt={label}:k={pos}")
+            # signature of a failure of this call: operation, argument shape, and for composite calls where it stopped
+            sig = f"{op['op']}:{shape}"
+            if op["op"] == "rauwMany":
+                sig += f":k={pos}"
+            elif op["op"] == "replaceNodesAndValues" and o == "raised":
+                sig += f":at-{real.where or 'start'}"
+            failed = False
+            if op["op"] in VIEW_OPS:
+                # the frame (C01_view_frame) on the real objects: creating (also a rejected creation), editing or dropping a
+                # GraphView changes no public accessor of any value / node / graph, no counter, no name-authority state
+                after_view = deep_snapshot(real)
+                if after_view != before:
+                    for prop_ in ("C01", "C06"):
+                        part.fail(
+                            f"{prop_}|view-frame:{op['op']}",
+                            f"{label} ({o}) changed the state of the viewed objects: {first_diff(before, after_view)}",
+                            {"ops": ops + [op]},
+                        )
+                    failed = True
+            viol = wf_oracle(real)
+            if viol:
+                part.fail(
+                    f"C01|{sig}",
+                    f"invariant broken after {label} ({o}{' ' + kind if kind else ''}): {viol[0]}",
+                    {"ops": ops + [op], "violations": viol[:5]},
+                )
+                failed = True
+            if o == "raised":
+                # objects a rejected composite call created on the way (Tape.initializer) are not "changed" objects
+                after = deep_snapshot(real, counts0)
+                if after != before:
                     part.fail(
-                        f"{prop_}|view-frame:{op['op']}",
-                        f"{label} ({o}) changed the state of the viewed objects: {first_diff(before, after_view)}",
+                        f"C06|{sig}",
+                        f"{label} raised {kind} but changed state: {first_diff(before, after)}",
                         {"ops": ops + [op]},
                     )
-                failed = True
-        viol = wf_oracle(real)
-        if viol:
-            part.fail(
-                f"C01|{sig}",
-                f"invariant broken after {label} ({o}{' ' + kind if kind else ''}): {viol[0]}",
-                {"ops": ops + [op], "violations": viol[:5]},
-            )
-            failed = True
-        if o == "raised":
-            # objects a rejected composite call created on the way (Tape.initializer) are not "changed" objects
-            after = deep_snapshot(real, counts0)
-            if after != before:
+                    # the model keeps the partial effects of these composite calls exactly like the code: go on comparing
+                    failed = failed or op["op"] not in NOT_ATOMIC
+                if kind not in allowed_kinds(op, real, shape):
+                    for prop in ("C01", "C06"):
+                        part.fail(
+                            f"{prop}|kind:{op['op']}:{kind}",
+                            f"{label} was rejected with {kind}, which is not a documented rejection of this call "
+                            f"(allowed: {sorted(allowed_kinds(op, real, shape))}) - an internal error passing as a rejection",
+                            {"ops": ops + [op]},
+                        )
+            if failed:
+                break
+            try:
+                cur = real.snapshot()
+            except Exception as e:  # noqa: BLE001 - an accessor of the real code raised on the state this call left
                 part.fail(
-                    f"C06|{sig}",
-                    f"{label} raised {kind} but changed state: {first_diff(before, after)}",
+                    f"C01|{sig}",
+                    f"after {label} ({o}) the state can no longer be read through the public accessors: "
+                    f"{type(e).__name__}: {str(e)[:120]}",
                     {"ops": ops + [op]},
                 )
-                # the model keeps the partial effects of these composite calls exactly like the code: go on comparing
-                failed = failed or op["op"] not in NOT_ATOMIC
-            if kind not in allowed_kinds(op, real, shape):
-                for prop in ("C01", "C06"):
-                    part.fail(
-                        f"{prop}|kind:{op['op']}:{kind}",
-                        f"{label} was rejected with {kind}, which is not a documented rejection of this call "
-                        f"(allowed: {sorted(allowed_kinds(op, real, shape))}) - an internal error passing as a rejection",
-                        {"ops": ops + [op]},
-                    )
-        if failed:
-            break
-        try:
-            cur = real.snapshot()
-        except Exception as e:  # noqa: BLE001 - an accessor of the real code raised on the state this call left
+                break
+            ops.append(op)
+            mops.append(mop)
+            outcomes.append(o)
+            deltas.append(delta(prev, cur))
+            try:
+                views.append(real.views_snapshot())
+            except Exception as e:  # noqa: BLE001 - real code (GraphView's Sequence protocol) on a possibly broken state
+                views.append([f"unreadable: {type(e).__name__}: {str(e)[:80]}"])
+            prev = cur
+    except Nonterm:
+        # real code (the call itself, or an accessor the oracles read) did not come back within STEP_LIMIT_S seconds
+        what = (cur_op or {}).get("op", "generator")
+        with open(_nonterm_flag(), "a") as f:
+            f.write(what + "\n")
+        for prop_ in ("C01", "C06"):
             part.fail(
-                f"C01|{sig}",
-                f"after {label} ({o}) the state can no longer be read through the public accessors: "
-                f"{type(e).__name__}: {str(e)[:120]}",
-                {"ops": ops + [op]},
+                f"{prop_}|nontermination:{what}",
+                f"the real code did not return within {STEP_LIMIT_S}s during / after {what} (a loop that does not terminate)",
+                {"ops": ops + ([cur_op] if cur_op else [])},
             )
-            break
-        ops.append(op)
-        mops.append(mop)
-        outcomes.append(o)
-        deltas.append(delta(prev, cur))
-        try:
-            views.append(real.views_snapshot())
-        except Exception as e:  # noqa: BLE001 - real code (GraphView's Sequence protocol) on a possibly broken state
-            views.append([f"unreadable: {type(e).__name__}: {str(e)[:80]}"])
-        prev = cur
+    finally:
+        _arm(0)
     return {"ops": ops, "mops": mops, "outcomes": outcomes, "deltas": deltas, "views": views}
 
 
@@ -2169,12 +2307,12 @@ def small_alphabet(reduced: bool = False) -> list[dict]:
     # slot assignment and the view's plain dict; ops on view 0 are skipped in histories that have not created it)
     A += [
         {"op": "newView", "inputs": [0, 2], "outputs": [4, 5], "nodes": [0, 1, 2], "inits": [1, 0]},
-        {"op": "newView", "inputs": [], "outputs": [], "nodes": [], "inits": [2]},
         {"op": "viewSet", "view": 0, "slot": "inputs", "vs": [4, 4]},
-        {"op": "viewInitPut", "view": 0, "key": "b", "v": 2},
     ]
     if not reduced:
         A += [
+            {"op": "newView", "inputs": [], "outputs": [], "nodes": [], "inits": [2]},
+            {"op": "viewInitPut", "view": 0, "key": "b", "v": 2},
             {"op": "viewSet", "view": 0, "slot": "outputs", "vs": []},
             {"op": "viewInits", "view": 0, "kvs": [["k", 3], ["k", 2]]},
             {"op": "viewInitDel", "view": 0, "key": "a"},
@@ -2348,6 +2486,14 @@ def position_scenarios() -> list[list[dict]]:
         adds = [{"op": "init", "g": 0, "m": "add", "v": v} for v in (6, 7, 8)]
         out.append(setup + adds + [{"op": "renameValues", "vs": [6, 7, 8], "names": at(["a1", "a2", "a3"], "", k)}])
         out.append(setup + adds + [{"op": "renameValues", "vs": [6, 7, 8], "names": at(["a1", "a2", "a3"], "b", k)}])
+    # rename_values onto the CURRENT name of a backing tensor that refuses renaming (the tensor's name differs from the
+    # value's): the refusal must be found before the renamed initializers are popped (seeded C06-p2), at every position
+    for k in range(3):
+        locked = {"op": "tapeInitializer", "g": 0, "name": "lk", "tname": "tn", "locked": True}  # v12: value "lk", tensor "tn"
+        vs = at([6, 7, 8], 12, k)
+        adds = [{"op": "init", "g": 0, "m": "add", "v": v} for v in (6, 7, 8) if v in vs]
+        out.append(setup + [locked] + adds + [{"op": "renameValues", "vs": vs, "names": at(["a1", "a2", "a3"], "tn", k)}])
+        out.append(setup + [locked] + adds + [{"op": "renameValues", "vs": vs, "names": at(["a1", "a2", "a3"], "zz", k)}])
     return out
 
 
@@ -2479,6 +2625,45 @@ def view_scenarios() -> list[list[dict]]:
             continue
         out.append(pre + [call] + post + [call])
     return out
+
+
+def multiplicity_scenarios() -> list[list[dict]]:
+    """A value listed once / twice in g0.inputs or g0.outputs, a slice assignment whose old and new side both contain
+    it with another multiplicity, then two removals: a reference counter that drifted at the assignment (latent state)
+    shows as a wrong is_graph_input / is_graph_output / graph at the removal (seeded C01-p1, C01-q1)."""
+    import itertools
+
+    setup = [{"op": "newValue", "name": "p"}, {"op": "newValue", "name": "q"}]  # v6, v7: free values
+    x, y = 6, 7
+    out = []
+    for kind in ("inp", "out"):
+
+        def io(m, **kw):
+            return {"op": "io", "g": 0, "kind": kind, "m": m, **kw}
+
+        def assign(vs, start=None, stop=None):
+            return io("setSlice", start=start, stop=stop, step=None, vs=vs)
+
+        removals = [io("pop", i=-1), io("pop", i=0), io("remove", v=x), io("delItem", i=0), io("clear"), assign([]),
+                    io("setItem", i=0, v=y)]
+        for base in ([x], [x, x], [x, y], [y, x, x]):
+            for new in ([x], [x, x], [y, x], [x, y, x]):
+                if base == new:
+                    continue
+                for r1, r2 in itertools.product(removals, repeat=2):
+                    out.append(setup + [assign(base), assign(new), r1, r2])
+    return out
+
+
+def run_multiplicity_scenarios(ctx, prop: str, procs: int = 16) -> str:
+    hs = [PRELUDE + t for t in multiplicity_scenarios()]
+    chunk = max(1, len(hs) // (procs * 2))
+    jobs = [hs[i : i + chunk] for i in range(0, len(hs), chunk)]
+    for part in pmap(_sort_worker, jobs, procs):
+        split_failures(part, prop)
+        ctx.merge(part)
+    return (f"{len(hs)} multiplicity histories: g0.inputs / g0.outputs set to a list with a value once / twice, re-assigned by "
+            "a slice assignment that changes the value's multiplicity, then two removals (7 kinds)")
 
 
 def run_view_scenarios(ctx, prop: str, procs: int = 16) -> str:
@@ -2839,7 +3024,11 @@ def graphview_member_probe(real: "Real | None" = None) -> tuple[list[str], dict[
                             initializers=list(g0.initializers.values()), name="view", doc_string="d", opset_imports={"": 1},
                             metadata_props={"k": "v"})
 
-    view = make()
+    try:
+        view = make()
+    except Exception as e:  # noqa: BLE001
+        return [f"GraphView(...) over values / nodes owned by a graph was rejected: {type(e).__name__}: {str(e)[:160]} "
+                "(graphview-members)"], how
     unchanged("__init__", "constructed over g0's inputs + a free value, repeated outputs, the nodes of two graphs, g0's initializers")
     try:
         ir.GraphView([], [], nodes=[], initializers=[real.vals[2]])  # unnamed: ValueError
@@ -2981,16 +3170,23 @@ def check_alphabet(ctx, prop: str) -> None:
         "min_exercised": ALPHABET_MIN,
         "table": table,
     }
-    for msg in _query_probe():
+    # real code called by a probe: a problem is a broken correspondence / a failure, never a harness crash or a hang
+    msgs, err = guarded(_query_probe)
+    if err and "did not return" in err:
+        ctx.fail("nontermination:query-probe", "a member classified as a query " + err, {})
+    for msg in (msgs if err is None else [f"the query / GraphView probe could not run on the real code: {err}"]):
         ctx.disagree("alphabet: " + msg, {})
-    ctx.extra["graphview_members"] = {
-        "decision": "no public member of GraphView can mutate IR state (each exercised on every run, deep snapshot unchanged)",
-        "members": graphview_member_probe()[1],
-    }
+    gv, err = guarded(graphview_member_probe)
+    ctx.extra["graphview_members"] = (
+        {"decision": "no public member of GraphView can mutate IR state (each exercised on every run, deep snapshot "
+                     "unchanged)", "members": gv[1]} if err is None else {"decision": f"probe failed: {err}"})
     # findings of this round
     known = load_known()
     mentioned = {e.get("id") for e in known.get("known", []) + known.get("fixed", []) if e.get("property") == prop}
-    still = _alias_probe()
+    still, err = guarded(_alias_probe)
+    if err is not None:
+        ctx.disagree(f"alphabet: the alias probe could not run on the real code: {err}", {})
+        still = {fid: False for fid in PENDING_FINDINGS}
     pending = []
     for fid, (sig, what) in PENDING_FINDINGS.items():
         if not still[fid]:
